@@ -59,7 +59,7 @@ def run(r: core.Run):
             pr["ok"] = False
             pr["failed"].append(("leanchecker", out[-500:]))
     r.cov["rule"] = RULE
-    d = os.path.join(core.BUILD, "scratch")
+    d = core.SCRATCH
     os.makedirs(d, exist_ok=True)
     base = os.path.join(d, "C08-fuzz")
 
